@@ -29,7 +29,7 @@ DOMAIN = {
     "nDim": ["two", "three"],
 }
 INVALID = {
-    "kernel": ["unknown"], "resampler": ["unknown"], "metric": ["ess0", "essneg", "vv0", "vvneg"],
+    "kernel": ["unknown"], "resampler": ["unknown"], "metric": ["ess0", "essneg", "vv0", "vvneg", "ess0vv", "essnegvv"],
     "evaluation": ["vectorblobs"], "bounds": ["overlap", "outofrange", "negative", "nonint"],
     "nParticles": ["zero", "neg", "float"], "nDim": ["zero", "neg", "float"],
 }
@@ -53,7 +53,8 @@ def concretize(c):
         n_particles={"small": 8, "default": None, "zero": 0, "neg": -4, "float": 8.5}[c["nParticles"]],
     )
     conf.update({"ess1": dict(ess_ratio=1.0), "ess2": dict(ess_ratio=2.0), "vvsmall": dict(volume_variation=0.2), "vvbig": dict(volume_variation=5.0),
-                 "ess0": dict(ess_ratio=0.0), "essneg": dict(ess_ratio=-1.0), "vv0": dict(volume_variation=0.0), "vvneg": dict(volume_variation=-0.5)}[c["metric"]])
+                 "ess0": dict(ess_ratio=0.0), "essneg": dict(ess_ratio=-1.0), "vv0": dict(volume_variation=0.0), "vvneg": dict(volume_variation=-0.5),
+                 "ess0vv": dict(ess_ratio=0.0, volume_variation=0.25), "essnegvv": dict(ess_ratio=-1.0, volume_variation=0.25)}[c["metric"]])
     conf["evaluation"] = c["evaluation"]
     conf.update({"none": {}, "periodic": dict(periodic=[0]), "reflective": dict(reflective=[1]), "both": dict(periodic=[0], reflective=[1]),
                  "overlap": dict(periodic=[0], reflective=[0]), "outofrange": dict(periodic=[nd]), "negative": dict(reflective=[-1]),
@@ -162,11 +163,15 @@ def main():
     scratch = tempfile.mkdtemp(prefix="c18scratch_")
     for i, r in enumerate(rows):
         jobs.append({"cfg": r, "seed": 1800 + i + 1000 * ck.seed, "label": "valid#%d" % i, "n_total": 24, "scratch": scratch})
+    rnd = random.Random(ck.seed + 181)
     for f, vals in INVALID.items():
         for v in vals:
-            c = dict(DEFAULT)
-            c[f] = v
-            jobs.append({"cfg": c, "seed": 1, "label": f"invalid:{f}={v}", "n_total": 24, "scratch": scratch})
+            # the invalid value with every other option at its default, and substituted into a few rows of the valid array
+            # (an invalid value must be rejected whatever the other, valid, options are)
+            for base in [DEFAULT] + rnd.sample(rows, min(3 if ck.tier == "quick" else 12, len(rows))):
+                c = dict(base)
+                c[f] = v
+                jobs.append({"cfg": c, "seed": 1, "label": f"invalid:{f}={v}", "n_total": 24, "scratch": scratch})
     results = [None] * len(jobs)
     with cf.ProcessPoolExecutor(max_workers=sysrun.PROCS, mp_context=mp.get_context("fork")) as ex:
         futs = {ex.submit(_run_one, j): i for i, j in enumerate(jobs)}
